@@ -419,6 +419,10 @@ def eq_term(eng, a, b):
         if is_opt(o.ty):
             return o.t == 0
         return z3.BoolVal(False)
+    if ka == 'any' and kb == 'rec':
+        return a.t == eng.json_object(b)
+    if kb == 'any' and ka == 'rec':
+        return b.t == eng.json_object(a)
     if ka == 'any' or kb == 'any':
         if (kb if ka == 'any' else ka) in ('rec', 'tup', 'fn', 'mod', 'pylist', 'dict'):
             return z3.BoolVal(False)
@@ -770,7 +774,8 @@ def delitem(eng, st, o, i, line):
             continue
         ndom = z3.Store(dom, i.t, False)
         eng.fact(s1, card(ndom) == card(dom) - 1)
-        yield s1, V(o.ty, (ndom, mp))
+        # the slot of a deleted key is reset, so that dicts with equal content are equal terms
+        yield s1, V(o.ty, (ndom, z3.Store(mp, i.t, eng.default_term(mp.sort().range()))))
 
 
 def unpack(eng, st, v, n, line):
@@ -1695,16 +1700,7 @@ def _json_dumps(eng, st, args, kwargs, line):
     if v.ty.kind == 'any':
         t = v.t
     elif v.ty.kind == 'rec':
-        # a dict literal built by the code: an abstract JSON object whose members are recorded
-        jv = z3.Const(eng.name('jobj'), JV)
-        eng.fact(st, j_isdict(jv))
-        for kk, x in v.t.items():
-            eng.fact(st, j_haskey(jv, z3.StringVal(kk)))
-            try:
-                eng.fact(st, j_get(jv, z3.StringVal(kk)) == box(x))
-            except TypeError:
-                pass
-        t = PV.pj(jv)
+        t = eng.json_object(v)
     else:
         t = box(v)
     f = json_dumps_c if compact else json_dumps_d
